@@ -91,6 +91,10 @@ type Log struct {
 	// persisting methods and DebitAccount); a non-nil error is returned to the
 	// server in place of calling the inner store (a failing store).
 	Fault atomic.Pointer[func(kind string) error]
+
+	holdMu         sync.Mutex
+	holders        map[types.FileContractID]uint64
+	lockViolations []LockViolation
 }
 
 func (l *Log) add(e Event) uint64 {
@@ -197,11 +201,71 @@ func (c *RecContractor) LockV2Contract(id types.FileContractID) (rhp.RevisionSta
 	if err != nil {
 		return rs, unlock, err
 	}
+	// mutual exclusion monitor: at most one holder per contract at any instant
+	stream := uint64(0)
+	if c.Log.mux != nil {
+		stream = c.Log.mux.CurrentStream()
+	}
+	c.Log.holdMu.Lock()
+	if c.Log.holders == nil {
+		c.Log.holders = map[types.FileContractID]uint64{}
+	}
+	if prev, held := c.Log.holders[id]; held {
+		c.Log.lockViolations = append(c.Log.lockViolations, LockViolation{ContractID: id, Holder: prev, Intruder: stream, Seq: seq})
+	}
+	c.Log.holders[id] = stream
+	c.Log.holdMu.Unlock()
+	var once sync.Once
 	return rs, func() {
 		c.Log.perturb(EvUnlock)
+		once.Do(func() {
+			c.Log.holdMu.Lock()
+			if c.Log.holders[id] == stream {
+				delete(c.Log.holders, id)
+			}
+			c.Log.holdMu.Unlock()
+		})
 		unlock()
 		c.Log.add(Event{Kind: EvUnlock, ContractID: id, UnlockSeq: seq})
 	}, nil
+}
+
+// A LockViolation records a contract lock that was granted while another
+// handler still held it.
+type LockViolation struct {
+	ContractID types.FileContractID `json:"contract"`
+	Holder     uint64               `json:"holder_stream"`
+	Intruder   uint64               `json:"intruder_stream"`
+	Seq        uint64               `json:"seq"`
+}
+
+// TakeLockViolations returns and clears the violations of the mutual
+// exclusion monitor.
+func (l *Log) TakeLockViolations() []LockViolation {
+	l.holdMu.Lock()
+	defer l.holdMu.Unlock()
+	out := l.lockViolations
+	l.lockViolations = nil
+	return out
+}
+
+// ForgetLock drops a contract from the monitor (after a leaked lock was reported).
+func (l *Log) ForgetLock(id types.FileContractID) {
+	l.holdMu.Lock()
+	delete(l.holders, id)
+	l.holdMu.Unlock()
+}
+
+// HeldLocks returns the contracts whose lock is held right now, with the
+// stream of the holder.
+func (l *Log) HeldLocks() map[types.FileContractID]uint64 {
+	l.holdMu.Lock()
+	defer l.holdMu.Unlock()
+	out := make(map[types.FileContractID]uint64, len(l.holders))
+	for k, v := range l.holders {
+		out[k] = v
+	}
+	return out
 }
 
 func copySet(ts rhp.TransactionSet) []types.V2Transaction {
